@@ -87,13 +87,14 @@ func main() {
 		var in struct {
 			Seed  uint64              `json:"seed"`
 			Tapes map[string][]uint32 `json:"tapes"`
+			Prel  []uint64            `json:"prelude"`
 		}
 		b, _ := io.ReadAll(os.Stdin)
 		if err := json.Unmarshal(b, &in); err != nil {
 			fmt.Fprintln(os.Stderr, err)
 			os.Exit(2)
 		}
-		ro := replayOnce(c, tierOf(os.Args[3]), in.Seed, in.Tapes)
+		ro := replayOnce(c, tierOf(os.Args[3]), in.Seed, in.Tapes, in.Prel...)
 		out, _ := json.Marshal(ro)
 		os.Stdout.Write(out)
 	case "replay":
@@ -112,7 +113,7 @@ func main() {
 			fmt.Fprintln(os.Stderr, "unknown property", rf.Property)
 			os.Exit(2)
 		}
-		ro := replayOnce(c, tierOf(rf.Tier), rf.Seed, rf.Tapes)
+		ro := replayOnce(c, tierOf(rf.Tier), rf.Seed, rf.Tapes, rf.Prelude...)
 		sc, _ := json.MarshalIndent(ro.Scenario, "", " ")
 		fmt.Printf("scenario: %s\n", sc)
 		if v := hasFP(ro.Viol, rf.Fingerprint); v != nil {
